@@ -272,6 +272,13 @@ def hash_value(I, x, state_ref):
         if xv.var == 'Some':
             hash_value(I, xv.f[0], state_ref)
         return
+    if isinstance(xv, MapV) and xv.kind.startswith('BTree'):
+        hasher_feed(I, state_ref, [('len', 'usize', usize(len(xv.entries)))])
+        for k_, v_ in xv.entries:
+            hash_value(I, k_, state_ref)
+            if not xv.kind.endswith('Set'):
+                hash_value(I, v_, state_ref)
+        return
     if isinstance(xv, Agg) and xv.ty in ('tuple', 'Ipv4Addr', 'Ipv6Addr', 'array'):
         if xv.ty == 'array':
             hasher_feed(I, state_ref, [('len', 'usize', usize(len(xv.f)))])
@@ -281,7 +288,7 @@ def hash_value(I, x, state_ref):
     raise Unsupported("hash of %r" % (xv,))
 
 
-@model(r'^<(Cow<.*>|Vec<.*>|\[.*\]|&\[.*\]|String|str|&str|Option<.*>|\(.*\)|std::net::Ipv[46]Addr|&.*) as Hash>::hash::<.*>$')
+@model(r'^<(Cow<.*>|Vec<.*>|\[.*\]|&\[.*\]|String|str|&str|Option<.*>|\(.*\)|(?:std::net::)?Ipv[46]Addr|(?:std::net::)?IpAddr|BTreeMap<.*>|BTreeSet<.*>|&.*) as Hash>::hash::<.*>$')
 def m_hash_std(I, fr, callee, m, args):
     v = I.load_ref(args[0]) if isinstance(args[0], Ref) else args[0]
     t = m.group(1)
@@ -422,3 +429,16 @@ def m_bitflags(I, fr, callee, m, args):
     if op in ('complement', 'not'):
         return _mkflags(pub, band(bnot(A(0)), ALL))
     return NotImplemented
+
+
+@model(r'^<(?:std::net::)?(Ipv4Addr|Ipv6Addr|IpAddr) as PartialEq>::(eq|ne)$')
+def m_ip_eq(I, fr, callee, m, args):
+    a, b = deref_val(I, args[0]), deref_val(I, args[1])
+    e = I.value_eq(a, b)
+    return sc_from(e if m.group(2) == 'eq' else z3.Not(e), 'bool')
+
+
+@model(r'^<(?:std::net::)?IpAddr as From<(?:std::net::)?(Ipv4Addr|Ipv6Addr)>>::from$|^<(?:std::net::)?(Ipv4Addr|Ipv6Addr) as Into<(?:std::net::)?IpAddr>>::into$')
+def m_ipaddr_from(I, fr, callee, m, args):
+    which = m.group(1) or m.group(2)
+    return En('IpAddr', 'V4' if which == 'Ipv4Addr' else 'V6', (args[0],))
